@@ -24,6 +24,9 @@ R.METHODS[("Config", "type_rewriter")] = lambda ip, r, a, k, n: ZV(f("config_rew
 R.METHODS[("Config", "max_typed_dict_size")] = lambda ip, r, a, k, n: ZV(f("config_k", L.V, L.V)(r.term), "Opt[int]")
 for n_ in ("config_store", "config_rewriter", "config_k"):
     declare_pred(n_, L.V, L.V)
+# Config.max_typed_dict_size() -> int: a configuration returns an int as annotated (None would make shrink_typed_dict_types raise TypeError)
+_c0 = L.fresh("c")
+L.axiom(T, "config-k-is-int", L.FA(_c0, f("config_k", L.V, L.V)(_c0) != L.NONE, [f("config_k", L.V, L.V)(_c0)]))
 stored = declare_pred("stored", L.V, L.V, L.V, L.V, L.V, tag="Seq[Thunk]")      # store.filter(module, qualname, limit)
 R.METHODS[("Store", "filter")] = lambda ip, r, a, k, n: ZV(stored(r.term, as_v(a[0]), as_v(a[1]), as_v(a[2])), "Seq[Thunk]")
 decodes = declare_pred("decodes", L.V, L.B)          # thunk.to_trace() returns (else it raises MonkeyTypeError: proved on the decode chain)
